@@ -209,6 +209,21 @@ func (s *Symbolizer) sym1(fr *frame, v ssa.Value) *Sym {
 				return &Sym{Op: op, Args: []*Sym{s.sym(fr, rg.X)}}
 			}
 		}
+		if sel, ok := x.Tuple.(*ssa.Select); ok {
+			if x.Index >= 2 {
+				// received value of the (x.Index-2)th receive state
+				k := 0
+				for _, st := range sel.States {
+					if st.Dir == types.RecvOnly {
+						if k == x.Index-2 {
+							return &Sym{Op: "call", Name: "recv", Args: []*Sym{s.sym(fr, st.Chan)}}
+						}
+						k++
+					}
+				}
+			}
+			return &Sym{Op: "call", Name: "select#" + strconv.Itoa(x.Index)}
+		}
 		t := s.sym(fr, x.Tuple)
 		if t.Op == "tuple" && x.Index < len(t.Args) {
 			return t.Args[x.Index]
@@ -234,6 +249,14 @@ func (s *Symbolizer) sym1(fr *frame, v ssa.Value) *Sym {
 	case *ssa.Convert:
 		return &Sym{Op: "call", Name: "convert", Args: []*Sym{s.sym(fr, x.X)}}
 	case *ssa.Slice:
+		if al, ok := x.X.(*ssa.Alloc); ok && x.Low == nil && x.High == nil {
+			if _, isArr := deref(al.Type()).Underlying().(*types.Array); isArr {
+				probe := &Sym{Op: "call", Name: "slice", Val: x}
+				if el := s.variadic(fr, []*Sym{probe}); el != nil {
+					return &Sym{Op: "list", Args: el}
+				}
+			}
+		}
 		out := &Sym{Op: "call", Name: "slice", Args: []*Sym{s.sym(fr, x.X)}}
 		for _, b := range []ssa.Value{x.Low, x.High} {
 			if b != nil {
@@ -601,6 +624,12 @@ func (y *Sym) String() string {
 			ps = append(ps, a.String())
 		}
 		return "(" + strings.Join(ps, ", ") + ")"
+	case "list":
+		var ps []string
+		for _, a := range y.Args {
+			ps = append(ps, a.String())
+		}
+		return "[" + strings.Join(ps, ", ") + "]"
 	case "phi":
 		var ps []string
 		seen := map[string]bool{}
